@@ -227,6 +227,32 @@ def main():
         # the same modules WITHOUT their companion, in a directory whose parent names contain '-' and '.' (fallback names are derived from the
         # module's own name - e.g. the Kid Chaos "<name up to the last '-'>.set" of Magnetic Fields modules - and must stay in its directory),
         # with decoys one level up
+        # ... and under a directory path longer than 1023 characters (legal: PATH_MAX is 4096): a companion name that is cut off while it
+        # is being built names something in an ANCESTOR directory - a decoy sits exactly there
+        src = os.path.join(data, "zob-the-zob.mod")
+        if os.path.exists(src):
+            parent = base
+            while len(parent) < 900: parent = os.path.join(parent, "d" * 120)
+            k = 1023 - len(parent) - 1
+            last = "L" * max(k + 40, 60)
+            d4 = os.path.join(parent, last)
+            if 0 < k < len(last):
+                os.makedirs(d4, exist_ok=True)
+                open(os.path.join(parent, last[:k]), "wb").write(b"ST1.3 ModuleINFO" + bytes(4000))
+                shutil.copy(src, d4); p4 = os.path.join(d4, "zob-the-zob.mod")
+                r = V.run([drv, "trace", "LP", p4], env=env, timeout=120, cwd=base)
+                ck.count()
+                calls = [l.split() for l in r.stdout.split("\n") if l and not l.startswith("RET")]
+                opens = [bytes.fromhex(c[1]).decode("latin1") for c in calls if c[0] in ("OPEN", "OPENDIR")]
+                temps = [bytes.fromhex(c[1]).decode("latin1") for c in calls if c[0] == "MKSTEMP"]
+                outside = [o for o in opens if o != p4 and o not in temps and os.path.dirname(os.path.abspath(o)) != d4 and os.path.abspath(o) != d4]
+                if r.returncode != 0:
+                    ck.violation({"engine": "own-name", "module": "zob-the-zob.mod", "entry": "LP", "broken": "sanitizer / crash (long directory path)", "stderr": r.stderr[-1200:]}, key="own-name-crash3")
+                elif outside:
+                    ck.violation({"engine": "own-name", "module": "zob-the-zob.mod", "entry": "LP", "opened": [o[-80:] for o in outside], "module_dir_length": len(d4),
+                                  "what": "module in a directory whose path has %d characters: a companion name cut off at 1023 characters was opened in an ancestor directory" % len(d4),
+                                  "broken": "monitor: file opened outside the module's directory"}, key="own-name-longpath")
+                else: ck.nontrivial(("own-longpath",))
         d3p = os.path.join(base, "up-loads.d"); d3 = os.path.join(d3p, "sub-dir")
         os.makedirs(d3, exist_ok=True)
         for decoy in ("up.set", "up-loads.set", "up-loads.d.set", "sub.set"):
